@@ -79,6 +79,17 @@ STRENGTH = {
     'C16g': 'status queries through the real `main_loop` while the peer rekeys the IKE_SA (old IKE_SA in REKEYED) and after its DELETE',
     'C17g': 'hostile kinds `own_delete_then_expire` / `own_rekey_then_expire` / `expire_own_child`: the daemon\'s OWN lifetime deadlines come due and, while that request is outstanding, the kernel reports an EXPIRE for a CHILD_SA it holds',
     'C20g': 'failure scenarios with near-miss secrets on either side (the right secret with a blank / line end, one octet more / less, another letter case)',
+    'C02h': 'message 1 of the attack paths is also the request repeated with a COOKIE (the responder under load): the rewrites that keep SPI and nonce, in both ways of writing the reduced offer',
+    'C05h': 'the same Message object serialised, its header changed (Message ID, flags, exchange type, SPIr) and serialised again: the second result has the layout of the current content',
+    'C07h': 'modifications of TWO octets at the endpoint (the header names another first payload and its generic header gets the critical bit) and a bare forgery with an unknown critical payload instead of SK',
+    'C11h': '`Negotiate.tla` offers spanning three DH groups (the KE payload in one nobody else has, the local favourite not offered, the third one chosen): INVALID_KE_PAYLOAD names the CHOSEN group',
+    'C12h': 'answers whose TSi / TSr hold two selectors with the wide one first (what is installed is the first one)',
+    'C14h': '`XfrmWire.tla` `ChildPairs`: `create_child_sa` for both roles in the exchange x both roles in the IKE_SA - which half of KEYMAT goes into which NEWSA',
+    'C15h': 'ACQUIRE mapping over an IKE_SA that the PEER started (the daemon is its responder and the initiator of the exchange): TSi is its own side all the same',
+    'C16h': 'family `timeout_removal`: for every kind of request that can stay unanswered (the DELETE after an IKE_SA rekey included) 60 s of the real timers - the IKE_SA that sent it leaves the table with its kernel SAs',
+    'C17h': 'hostile kinds `replay_last` (an authentic datagram of the peer once more) and `own_request_then_stale_answer` (the daemon\'s own rekey, its follow-up DELETE outstanding, the first answer delivered again, then the timers)',
+    'C18h': '`Cookie.tla` requests carry what the negotiation would say about them (`ok` / `wrongke` / `noproposal`): without the right cookie the answer is COOKIE whatever the request is like',
+    'C19h': '`Config.tla`: lists that name the same algorithm twice (the same name; a number and a name of one group)',
     'C19f': '`Config.tla`: secrets with blanks / tabs / line ends at either end and of the other letter case; float values (`.inf`, `.nan`, `1.5`); the cross-key rule "not all algorithm lists empty"',
 }
 ANTICIPATED = {'C13c', 'C18c', 'C09d', 'C16d', 'C18d'}
@@ -86,7 +97,7 @@ AFTER_REPORT = {'C01e'}       # strengthened after reading the agent's report, b
 
 
 def main():
-    rows, counts = [], {1: [0, 0], 2: [0, 0], 3: [0, 0], 4: [0, 0], 5: [0, 0], 6: [0, 0], 7: [0, 0]}
+    rows, counts = [], {1: [0, 0], 2: [0, 0], 3: [0, 0], 4: [0, 0], 5: [0, 0], 6: [0, 0], 7: [0, 0], 8: [0, 0]}
     for p in sorted(glob.glob(os.path.join(VERIF, 'seeded', '*', 'meta.json'))):
         m = json.load(open(p))
         k = m['name']
@@ -100,7 +111,7 @@ def main():
     total = sum(c[1] for c in counts.values())
     out = ['### 0.7 Seeded changes: which check catches which change\n',
            f'{total} changes were written by fresh sub-agents (one per property and round) that saw **only the text of the property** and a scratch worktree of `/repo` -',
-           'nothing from `/verif`; rounds 2 to 7 were additionally told which ideas the earlier rounds had used and to stay away from them.  Each change compiles, leaves the',
+           'nothing from `/verif`; rounds 2 to 8 were additionally told which ideas the earlier rounds had used and to stay away from them.  Each change compiles, leaves the',
            'repository\'s test suite at 176 passed / 11 failed, comes with a demonstration (`demo_seed.py`: PASS on the original, FAIL on the change) and was confirmed by',
            '`harness/seedeval.py` in a fresh worktree before the check of its property was run on it (`VERIF_REPO=<worktree>`, quick tier).  Patch, demonstration and',
            '`meta.json` (what it needs to manifest, what was run, the outcome before and after strengthening) are in `/verif/seeded/<id>/`; none of them was ever applied to `/repo`.\n',
